@@ -367,15 +367,11 @@ theorem snapOf_loaded_fresh (s : St) (sid : Nat) (uid : String) (e ms dur : Nat)
   rw [hk.2.1, hk.2.2.2.2.1, hk.2.2.2.2.2.1, loaded_dur, loaded_occ]
   rfl
 
-theorem complUid_notAUid (s : St) : complUid s notAUid = notAUid := by
-  unfold complUid
-  simp
-
 /-- the unknown peer (the spool) may act for a known owner in the root daemon, and for the daemon's own
 user in a user daemon -/
 theorem effOwner_spool {s : St} {o : Nat} (hk : Known s o) (hme : s.me = 0 ∨ o = s.me) :
     effOwner s (some o) notAUid = some o := by
-  unfold effOwner
+  rw [effOwner_core (fun c => c.1 rfl)]
   have h1 : ownerC s (some o) = o := complUid_known hk
   rw [h1, complUid_notAUid]
   have ho : o ≠ notAUid := hk.1
